@@ -105,6 +105,9 @@ func (h accountsResourceHandler) ResolveFilter(opts common.ResourceQuery[any], o
 
 	case common.MetadataRegex.Match([]byte(property)):
 		match := common.MetadataRegex.FindAllStringSubmatch(property, 3)
+		if operator == queries.OperatorIn {
+			return filterMetadataIn(match[0][1], value)
+		}
 
 		return "metadata @> ?", []any{map[string]any{
 			match[0][1]: value,
